@@ -33,7 +33,7 @@ def run(ctx):
         ctx.report(classify(e, f["mon"]), {"driver": "h-model c01 small", "event": e})
     # 3. wide tier: boundary-biased operands at the real widths; Apalache evaluates the SAME operators
     #    with MaxU = 2^64-1 / 2^128-1 (one run per helper and width, in parallel)
-    per_op = 40 if ctx.quick else 200
+    per_op = 30 if ctx.quick else 200
     if ctx.violations:
         per_op = 0      # a violation is already established on the small domain: skip the slow wide tier
     quick_ops = ["mul_div", "mul_div_ceil", "mul_div_signed", "round_up_div", "round_up_mag_div",
